@@ -16,7 +16,7 @@
 # from VERIF_MUT_SRC instead of the working tree.
 set -eu
 w="$1"
-repo=/repo   # the path the `replace` directive in /verif/go.mod points to
+repo="${VERIF_REPO:-/repo}"   # the path the `replace` directive in /verif/go.mod points to
 mkdir -p "$w"
 
 src_of() {
